@@ -1,6 +1,11 @@
 """Per-property pipelines: which specification/config is model-checked, which behaviours are
 replayed on the real code, which recorded traces are validated.  See DESIGN.md section 4."""
 
+# placeholder characters of the "_long" alphabets: "~" is a 36-byte key / name that begins with a two-byte character, "^" a 4.2 KiB
+# value -- strings the TLA+ side cannot carry (non-ASCII) or that would be unwieldy there; the harness replaces them in the whole
+# line (inputs and expected results alike) when a stage passes subst=SUBST
+SUBST = "~=\u00e9" + "k" * 34 + ";;^=" + "v" * 4200
+
 
 def c07(ctx, res):
     path_trace(ctx, res)
@@ -8,6 +13,8 @@ def c07(ctx, res):
     ctx.repo_tests_path_trace(res, ["vfp"])
     cfg = "MC_C07_quick.cfg" if ctx.quick else "MC_C07_thorough.cfg"
     ctx.gen_replay(res, "vfp", "MC_C07.tla", cfg)
+    # placeholder alphabets: a 36-byte key that begins with a two-byte character, a 4.2 KiB value (check.SUBST)
+    ctx.gen_replay(res, "vfp", "MC_C07.tla", "MC_C07_long.cfg", subst=SUBST)
     if not ctx.quick:
         ctx.gen_replay(res, "vfp", "MC_C07.tla", "MC_C07_thorough2.cfg")
     # every pair of small Maps as sibling list members (state carried between siblings)
@@ -17,6 +24,9 @@ def c07(ctx, res):
     ctx.gen_replay(res, "vfpw", "MC_Deep.tla", "MC_Deep.cfg")
     # sessions: SetArraySize histories interleaved with queries on a list wider than the initial capacity
     ctx.gen_replay(res, "mxj", "Mxj.tla", "Mxj_vfp.cfg", procs=4)
+    # the query functions depend on no register but the field separator (the key-folding registers are the decoder's): every history
+    # of two setter calls, queries on a Map whose keys hold upper-case letters, hyphens and a multi-byte character
+    ctx.gen_replay(res, "opts", "MC_C18.tla", "MC_C18_hist2.cfg", workers=8)
     res.assumptions += ["results of wildcard paths are compared as bags (Go map iteration order)",
                         "tagged value codec and token dictionary of the harness"]
 
@@ -30,6 +40,8 @@ def c08(ctx, res):
     ctx.gen_replay(res, "vfk", "MC_C08.tla", "MC_C08_deep.cfg")   # deeper Maps (7 nodes), no conditions
     ctx.gen_replay(res, "vfk", "MC_C08.tla", "MC_C08_nil.cfg")    # members present with a null value, values that differ in case only
     ctx.gen_replay(res, "vfk", "MC_C08.tla", "MC_C08_empty.cfg")  # the empty key as a key (top level too) and as a path segment
+    ctx.gen_replay(res, "vfk", "MC_C08.tla", "MC_C08_tiny.cfg")   # numbers of very small magnitude in members and in numeric sub-keys (compared exactly)
+    ctx.gen_replay(res, "vfk", "MC_C08.tla", "MC_C08_long.cfg", subst=SUBST)   # a 36-byte key that begins with a two-byte character, a 4.2 KiB value (also as a sub-key value)
     ctx.gen_replay(res, "vfkw", "MC_Wide.tla", "MC_Wide_vfk.cfg")
     # sessions: sub-key STRINGS that are legal under both field separators, every history of SetFieldSeparator calls
     # interleaved with key searches (the condition a string denotes is a function of the separator at the time of the call)
@@ -46,6 +58,7 @@ def c09(ctx, res):
     ctx.gen_replay(res, "leaf", "MC_C09.tla", cfg)
     ctx.gen_replay(res, "leaf", "MC_C09.tla", "MC_C09_nil.cfg")        # null members as terminal values
     ctx.gen_replay(res, "leaf", "MC_C09.tla", "MC_C09_bracket.cfg")    # a key that holds a closing bracket (only ".", "[" and "*" are excluded from keys)
+    ctx.gen_replay(res, "leaf", "MC_C09.tla", "MC_C09_long.cfg", subst=SUBST)   # 36-byte keys that begin with a two-byte character (attribute key too), 4.2 KiB values
     ctx.gen_replay(res, "leaf", "MC_Wide.tla", "MC_Wide_leaf.cfg")     # lists of 33 / 257 / 300 members: subscripts beyond one byte, every path resolved again
     # sessions: every history of LeafUseDotNotation (set / clear / toggle) and SetAttrPrefix calls interleaved with LeafNodes
     ctx.gen_replay(res, "mxj", "Mxj.tla", "Mxj_leaf.cfg" if ctx.quick else "Mxj_leaf_thorough.cfg", procs=8)
@@ -59,6 +72,7 @@ def c10(ctx, res):
     cfg = "MC_C10_quick.cfg" if ctx.quick else "MC_C10_thorough.cfg"
     ctx.gen_replay(res, "upd", "MC_C10.tla", cfg)
     ctx.gen_replay(res, "upd", "MC_C10.tla", "MC_C10_empty.cfg")      # the empty key as a key and as a path segment (a..k, .a, a.)
+    ctx.gen_replay(res, "upd", "MC_C10.tla", "MC_C10_long.cfg", subst=SUBST)    # 36-byte key that begins with a two-byte character, 4.2 KiB values old and new
     # sessions: new-value STRINGS ("k<sep>v") under every history of SetFieldSeparator calls, separators of one and two characters
     ctx.gen_replay(res, "mxj", "Mxj.tla", "Mxj_upd.cfg", procs=4)
     ctx.gen_replay(res, "mxj", "Mxj.tla", "Mxj_updk.cfg", procs=4)     # ... and sub-key strings of UpdateValuesForPath
@@ -72,6 +86,7 @@ def c11(ctx, res):
     cfg = "MC_C11_quick.cfg" if ctx.quick else "MC_C11_thorough.cfg"
     ctx.gen_replay(res, "mut", "MC_C11.tla", cfg)
     ctx.gen_replay(res, "mut", "MC_C11.tla", "MC_C11_empty.cfg")    # the empty key as a key and as a path segment (leading, inner, trailing), the empty new name
+    ctx.gen_replay(res, "mut", "MC_C11.tla", "MC_C11_long.cfg", subst=SUBST)  # 36-byte key / new name that begins with a two-byte character, 4.2 KiB values
     # sessions: the key-folding registers are the decoders'; RenameKey takes the new name literally
     ctx.gen_replay(res, "mxj", "Mxj.tla", "Mxj_rename.cfg", procs=4)
     res.assumptions += ["SetValueForPath whose parent is reached through a list is outside the property's domain: only checked for panics"]
@@ -86,6 +101,8 @@ def c12(ctx, res):
     ctx.repo_tests_path_trace(res, ["newmap"])
     cfg = "MC_C12_quick.cfg" if ctx.quick else "MC_C12_thorough.cfg"
     ctx.gen_replay(res, "newmap", "MC_C12.tla", cfg)
+    ctx.gen_replay(res, "newmap", "MC_C12.tla", "MC_C12_nil.cfg")    # null members and null list elements among the values an old path yields
+    ctx.gen_replay(res, "newmap", "MC_C12.tla", "MC_C12_long.cfg", subst=SUBST)   # 36-byte names that begin with a two-byte character in old and new paths, 4.2 KiB values
     # sessions: key pairs are split at ':' whatever the field-separator register holds
     ctx.gen_replay(res, "mxj", "Mxj.tla", "Mxj_newmap.cfg", procs=4)
     res.assumptions += ["content compared up to list order when an old path has a wildcard (map iteration order)",
@@ -141,6 +158,8 @@ def c18(ctx, res):
     # decoder entry points on a <stream:stream> document in between (the element is returned at its start tag only while the register is on)
     ctx.gen_replay(res, "mxj", "Mxj.tla", "Mxj_xmpp_quick.cfg" if ctx.quick else "Mxj_xmpp.cfg", procs=8)
     ctx.gen_replay(res, "mxj", "Mxj.tla", "Mxj_pfx.cfg", procs=8)      # attribute prefixes of one and two characters: decode, encode, leaf nodes, Elements / Attributes
+    # tag sequence numbers and simple-values-as-map: documents with a complex root and with a root that holds nothing but text
+    ctx.gen_replay(res, "mxj", "Mxj.tla", "Mxj_tagseq.cfg", procs=8)
     # the sequence codec knows no attribute prefix and no case folding: prefixes that a tag may begin with ("_")
     ctx.gen_replay(res, "mxj", "Mxj.tla", "Mxj_seqpfx.cfg", procs=4)
     ctx.gen_replay(res, "mxj", "Mxj.tla", "Mxj_vfp.cfg", procs=4)     # SetArraySize histories: results of queries are the caller's, whatever the size
@@ -215,6 +234,7 @@ def c04(ctx, res):
     if not ctx.quick:
         ctx.gen_replay(res, "seq", "MC_C04.tla", "MC_C04_attrs_quick.cfg", procs=8)     # one element, up to three attributes
     ctx.gen_replay(res, "seq", "MC_C04.tla", "MC_C04_wide.cfg", procs=8)      # lists of four and five like-named siblings, contiguous or interleaved
+    ctx.gen_replay(res, "seq", "MC_C04.tla", "MC_C04_longnames.cfg", procs=8)  # names of 33+ characters that agree in their first 32 (prefixed and not)
     ctx.gen_replay(res, "seq", "MC_C04w.tla", "MC_C04w.cfg", procs=4)         # one element with up to 25 attributes and 25 children (two-digit sequence numbers)
     xml_trace(ctx, res, "seq")
     res.assumptions += ["documents start with the root element (a leading declaration or comment is the documented NoRoot result, covered by C15)",
